@@ -51,6 +51,7 @@ impl Check for C09 {
             Phase { name: "arrays of arity 0-7 over slot palettes", cases: scale(if q { 20000 } else { 300000 }, b), exhaustive: false },
             Phase { name: "fault planted at each depth of nested recipients / signatures", cases: scale(if q { 4000 } else { 60000 }, b), exhaustive: false },
             Phase { name: "nested slot holding one bare COSE_Signature / COSE_recipient instead of an array of them; nested arrays of 250-300 entries with a fault at a late index", cases: scale(if q { 200 } else { 4000 }, b), exhaustive: false },
+            Phase { name: "recipient layers (0-13) x counter-signature chain length (0-10) x chain form (5): whether the innermost recipient's header is accepted does not depend on how many recipient layers enclose it", cases: 11 * 5, exhaustive: true },
         ]
     }
     fn run_case(&self, ctx: &mut Ctx, phase: usize, idx: u64) {
@@ -63,6 +64,46 @@ impl Check for C09 {
                 let n = ctx.rng.below(8);
                 let a: Vec<Item> = (0..n).map(|_| slot_value(ctx)).collect();
                 iff::offer(ctx, &Item::Array(a), &MSG_TYPES, 1, false, true);
+            }
+            6 => {
+                use crate::capi;
+                use crate::hostile;
+                use crate::model::Ty;
+                let c = (idx % 11) as usize;
+                let form = (idx / 11) as u8;
+                let chain = if c == 0 { vec![0xa1, 0x04, 0x41, 0x11] } else { hostile::b1_header(c, form) };
+                let mut verdicts: Vec<(usize, &'static str, bool)> = Vec::new();
+                for r in 0..=13usize {
+                    let rcp = hostile::b3_recipient(r, &chain);
+                    let mut enc = vec![0x84, 0x40, 0xa0, 0xf6, 0x81];
+                    enc.extend_from_slice(&rcp);
+                    let mut mac = vec![0x85, 0x40, 0xa0, 0x41, 0x00, 0x40, 0x81];
+                    mac.extend_from_slice(&rcp);
+                    for (ty, name, b) in [(Ty::Recipient, "COSE_recipient", &rcp), (Ty::Encrypt, "COSE_Encrypt", &enc), (Ty::Mac, "COSE_Mac", &mac)] {
+                        ctx.eval();
+                        ctx.nontrivial_bytes(b);
+                        match capi::from_slice(ty, b) {
+                            Ok(_) => verdicts.push((r, name, true)),
+                            Err(capi::EK::Panic(s)) => ctx.violation(&format!("C09/panic/{}", s), format!("decoding panicked at {}", s), crate::json::J::obj(vec![("hex", crate::json::J::Str(crate::rcbor::hex(b)))])),
+                            Err(_) => verdicts.push((r, name, false)),
+                        }
+                    }
+                }
+                // reference: the same header on a recipient that nothing encloses
+                let base = verdicts.iter().find(|v| v.0 == 0 && v.1 == "COSE_recipient").map(|v| v.2);
+                if let Some(base) = base {
+                    ctx.count(if base { "layered-chain-accepted" } else { "layered-chain-rejected" });
+                    for (r, name, ok) in &verdicts {
+                        if *ok != base {
+                            ctx.violation(
+                                &format!("C09/recipient-layering-changes-acceptance/{}", name),
+                                format!("a recipient whose protected header holds a chain of {} counter signature(s) (form {}) is {} on its own but {} when {} recipient layer(s) of a {} enclose it", c, form, if base { "accepted" } else { "rejected" }, if *ok { "accepted" } else { "rejected" }, r, name),
+                                crate::json::J::obj(vec![("chain_length", crate::json::J::UInt(c as u64)), ("layers", crate::json::J::UInt(*r as u64)), ("form", crate::json::J::UInt(form as u64))]),
+                            );
+                            break;
+                        }
+                    }
+                }
             }
             5 => {
                 let o = GenOpts::wire();
@@ -127,7 +168,7 @@ impl Check for C09 {
         }
     }
     fn rule(&self) -> String {
-        "wire items generated as: valid COSE_Sign1/Sign/Signature/Mac/Mac0/Encrypt/Encrypt0/recipient values (nesting <= 3, styled protected headers, distinct slot values) in canonical + 3 random encodings; the complete single-fault neighbourhood of fixed bases of each type; 1-3 random faults; arrays of arity 0-7 over slot palettes (valid for the slot, valid for another slot, every other CBOR kind); faults planted at each depth of nested recipients. Every input is offered to all eight types (shared shapes) through from_slice, from_cbor_value and, for taggable types, from_tagged_slice. Oracle: accept iff the reference model accepts, then every field equals its slot. Non-trivial = distinct encodings.".into()
+        "wire items generated as: valid COSE_Sign1/Sign/Signature/Mac/Mac0/Encrypt/Encrypt0/recipient values (nesting <= 3, styled protected headers, distinct slot values) in canonical + 3 random encodings; the complete single-fault neighbourhood of fixed bases of each type; 1-3 random faults; arrays of arity 0-7 over slot palettes (valid for the slot, valid for another slot, every other CBOR kind); faults planted at each depth of nested recipients; recipients under 0-13 enclosing recipient layers whose innermost protected header holds a chain of 0-10 counter signatures in five forms (relation: acceptance of the header does not depend on the number of enclosing layers). Every input is offered to all eight types (shared shapes) through from_slice, from_cbor_value and, for taggable types, from_tagged_slice. Oracle: accept iff the reference model accepts, then every field equals its slot. Non-trivial = distinct encodings.".into()
     }
     fn assumptions(&self) -> Vec<String> {
         let mut v = super::std_assumptions();
